@@ -389,7 +389,14 @@ class ScoredCollector(Collector):
             # matcher with a more efficient version
             if replace:
                 if replacecounter == 0 or self.minscore != minscore:
-                    self.matcher = matcher = matcher.replace(minscore or 0)
+                    # If the weighting has a final() hook, minscore is in
+                    # final() units while the matcher's quality bounds are
+                    # not, so only replace structurally (threshold 0)
+                    if self.final_fn:
+                        matcher = matcher.replace(0)
+                    else:
+                        matcher = matcher.replace(minscore or 0)
+                    self.matcher = matcher
                     self.replaced_times += 1
                     if not matcher.is_active():
                         break
